@@ -11,7 +11,8 @@ Inductive fault :=
 | FTimeouts5        (* five consecutive read timeouts: errRetriesExhausted *)
 | FWriteSyscall | FWritePerm | FWriteOther   (* a scheduled WriteTo fails *)
 | FLink             (* a link-state event on the watcher channel: ErrLinkChange *)
-| FWatchClosed.     (* the watcher channel is closed: nothing happens *)
+| FWatchClosed      (* the watcher channel is closed: nothing happens *)
+| FBuildFail.       (* building a scheduled RA fails (a plugin's Apply: e.g. the address dump of a wildcard fails) *)
 
 Inductive reaction := Redial | ReturnErr | Continue.
 
@@ -19,6 +20,7 @@ Definition react (f : fault) : reaction :=
   match f with
   | FReadSyscall | FWriteSyscall | FLink => Redial
   | FReadPerm | FWritePerm | FReadOther | FWriteOther | FTimeouts5 => ReturnErr
+  | FBuildFail => ReturnErr       (* "failed to generate router advertisement: %v": wraps nothing *)
   | FWatchClosed => Continue
   end.
 
